@@ -17,7 +17,7 @@ def ensure_wt():
     demo = os.path.join(WT, "demo")
     os.makedirs(os.path.join(demo, "src"), exist_ok=True)
     os.makedirs(os.path.join(demo, ".cargo"), exist_ok=True)
-    open(os.path.join(demo, "Cargo.toml"), "w").write('[package]\nname="demo"\nversion="0.1.0"\nedition="2021"\n[workspace]\n[dependencies]\nsonic-rs={path=".."}\nsonic-number={path="../sonic-number"}\nbytes="1"\nfaststr="0.2"\nserde={version="1",features=["derive"]}\nserde_json="1"\n')
+    open(os.path.join(demo, "Cargo.toml"), "w").write('[package]\nname="demo"\nversion="0.1.0"\nedition="2021"\n[workspace]\n[dependencies]\nsonic-rs={path=".."}\nsonic-number={path="../sonic-number"}\nbytes="1"\nfaststr="0.2"\nserde={version="1",features=["derive"]}\nserde_json={version="1",features=["float_roundtrip","raw_value"]}\n')
     open(os.path.join(demo, ".cargo", "config.toml"), "w").write('[net]\noffline=true\n[build]\nrustflags=["-C","target-cpu=native"]\ntarget-dir="%s/target-demo"\n' % WT)
     shutil.copy("/repo/Cargo.lock", os.path.join(demo, "Cargo.lock"))
 
